@@ -166,6 +166,8 @@ async fn expect_frame(inc: &mut Incoming, want: &str, skip_prefix: &str) -> Resu
 struct Cutter {
     relay: Option<net::Relay>,
     graceful: bool,
+    /// the served stream is reset / stopped (stream-level error) before the connection is closed
+    reset: bool,
 }
 
 impl Cutter {
@@ -173,8 +175,14 @@ impl Cutter {
     /// cleanly (the peer sees the end of the stream, not a read error) just before the connection
     /// goes away - the order a server shutting down gracefully does things in
     async fn outage(&self, fake: &mut FakeServer, cur: &mut Incoming) {
-        if self.graceful {
-            let _ = cur.stream.finish().await;
+        if self.graceful || self.reset {
+            if self.reset {
+                // what the real server does to its streams when it shuts down on schedule
+                let _ = cur.stream.write().reset(1u32.into());
+                let _ = cur.stream.read().stop(1u32.into());
+            } else {
+                let _ = cur.stream.finish().await;
+            }
             tokio::time::sleep(Duration::from_millis(40)).await;
             // a client that saw the end of its stream may already have re-registered over the
             // connection that is about to go away: that attempt dies with it (and counts)
@@ -226,13 +234,13 @@ async fn cell(set: Arc<CertSet>, p: Params) -> Result<String, Fail> {
     let target = relay.as_ref().map(|r| r.addr).unwrap_or(fake.addr);
     // with a silent outage the connection must be kept alive by pings more often than the idle time-out
     let client = net::client_ka(target, &set.ca, &set.client, backoff(&p.backoff, p.max), if silent { 300 } else { 5_000 }).await.map_err(|e| setup("client connect", e.to_string()))?;
-    let cutter = Cutter { relay, graceful: p.outage == "graceful" };
+    let cutter = Cutter { relay, graceful: p.outage == "graceful", reset: p.outage == "reset" };
     let topic = "/c12ns/topic";
     let code = if p.fatal { INVALID_TOPIC_NAME } else { REPLIER_ALREADY_BOUND };
     let r = match p.kind.as_str() {
         "publisher" => publisher(&mut fake, &cutter, &client, topic, &p, code, &class).await,
         "subscriber" => subscriber(&mut fake, &cutter, &client, topic, &p, code, &class).await,
-        "requestor" => requestor(&mut fake, &cutter, &client, topic, &p, code, &class).await,
+        "requestor" | "requestor-clone" => requestor(&mut fake, &cutter, &client, topic, &p, code, &class).await,
         "requestor-clones" => requestor_clones(&mut fake, &cutter, &client, topic, &p, &class).await,
         _ => replier(&mut fake, &cutter, &client, topic, &p, code, &class).await,
     };
@@ -414,6 +422,14 @@ async fn requestor(fake: &mut FakeServer, cutter: &Cutter, client: &selium::Clie
     let b = client.requestor(topic).with_request_encoder(StringCodec).with_reply_decoder(StringCodec).with_request_timeout(Duration::from_millis(1500)).map_err(|e| fail("setup", "timeout", e.to_string()))?;
     let task = tokio::spawn(async move { b.open().await });
     let (mut cur, orig, mut req) = first_registration!(fake, task, class);
+    // "requestor-clone": everything below is done through a clone of the handle that was opened
+    // (a clone must carry the same settings, retry budget included)
+    let _original = if p.kind == "requestor-clone" {
+        let c = req.clone();
+        Some(std::mem::replace(&mut req, c))
+    } else {
+        None
+    };
     // answer one request on `cur`
     async fn answer(cur: &mut Incoming, want: &str) -> Result<(), String> {
         let f = expect_frame(cur, want, "").await?;
@@ -732,6 +748,16 @@ fn cells(tier: &str) -> Vec<Value> {
                         }
                     }
                 }
+                // the served stream is reset (a stream-level error reaches the client first), then the
+                // connection is closed
+                if pre <= 1 && max >= 2 {
+                    for fv in [vec![0u32], vec![0, 0]] {
+                        if thorough || fv.len() == 1 {
+                            v.push(json!({"cell": id, "kind": kind, "items_before": pre, "outages": fv.len(), "failing_attempts_per_outage": fv, "failure": "retryable", "backoff": "constant", "max_attempts": max, "outage": "reset"}));
+                            id += 1;
+                        }
+                    }
+                }
                 // a replier refused the way the real server does it (Ok, then the bind error, then
                 // the end of the stream): each acknowledged re-registration is a new outage
                 if kind == "replier" && (pre == 0 || thorough) {
@@ -759,6 +785,13 @@ fn cells(tier: &str) -> Vec<Value> {
                 v.push(json!({"cell": id, "kind": kind, "items_before": pre, "outages": 1, "failing_attempts_per_outage": [1], "failure": "unrecoverable", "backoff": "constant", "max_attempts": max}));
                 id += 1;
             }
+        }
+    }
+    // a clone of a requestor must recover with the configured budget and delays, like the original
+    for &max in maxes {
+        for fv in [vec![0u32], vec![max.saturating_sub(1)], vec![max], vec![0, max]] {
+            v.push(json!({"cell": id, "kind": "requestor-clone", "items_before": 1, "outages": fv.len(), "failing_attempts_per_outage": fv, "failure": "retryable", "backoff": (["constant", "exponential"][id % 2]), "max_attempts": max}));
+            id += 1;
         }
     }
     // two clones of one requestor recovering one after the other, a request of the first in flight
@@ -809,7 +842,7 @@ pub async fn run(tier: &str, replaying: bool) -> ! {
     finish(
         rep,
         outs,
-        "every cell of: stream kind {publisher, subscriber, requestor, replier} x items exchanged before the first cut {0,1(,2)} x number of successive outages 1..=max+2 x failing re-registration attempts per outage 0..=max x backoff {constant, linear, exponential(2)} (all three in thorough, rotating in quick) with step 5 ms x max attempts {1,2(,3)}, plus (thorough) every non-uniform vector of survivable failure counts over up to three outages, plus cells whose failing attempts fail because the fake server cuts the connection again while the client waits for the answer to its re-registration (instead of answering with an error frame), plus graceful outages (the fake server finishes the served stream cleanly, so the client sees the end of the stream rather than a read error, and then closes the connection), plus repliers whose re-registration is acknowledged and then refused with replier-already-bound and closed (what the real server does while the old binding exists; every acknowledged attempt ends one outage, so the replier must keep re-registering until served), plus publishers with 10 KiB fed but not flushed at the moment of the cut (the loss then surfaces in poll_ready), plus one unrecoverable-answer cell per (kind, max, items), plus silent outages (a UDP relay drops every packet for 2.6 s against a 1.5 s idle time-out, so the connection ends by time-out instead of by a close frame) per (kind, max), plus two clones of one requestor recovering one after the other with a request of the first in flight. Oracle per outage: the re-registration frame equals the original; the fake server counts exactly fails+1 attempts (max when all fail, 1 when unrecoverable) regardless of earlier outages; with fails<max the stream works again (published item reaches the fake server / pushed item is yielded / retried and fresh requests are answered / a request sent to the replier is replied to); with fails==max too-many-retries is reported on the operation that hit the outage or on the next one; an unrecoverable answer is reported immediately. non-trivial = at least two outages or at least one failing attempt",
+        "every cell of: stream kind {publisher, subscriber, requestor, replier} x items exchanged before the first cut {0,1(,2)} x number of successive outages 1..=max+2 x failing re-registration attempts per outage 0..=max x backoff {constant, linear, exponential(2)} (all three in thorough, rotating in quick) with step 5 ms x max attempts {1,2(,3)}, plus (thorough) every non-uniform vector of survivable failure counts over up to three outages, plus cells whose failing attempts fail because the fake server cuts the connection again while the client waits for the answer to its re-registration (instead of answering with an error frame), plus the requestor flow driven through a clone of the opened handle (same budget and delays expected), plus outages that start with a reset of the served stream (the client sees a stream-level error before the connection-level one), plus graceful outages (the fake server finishes the served stream cleanly, so the client sees the end of the stream rather than a read error, and then closes the connection), plus repliers whose re-registration is acknowledged and then refused with replier-already-bound and closed (what the real server does while the old binding exists; every acknowledged attempt ends one outage, so the replier must keep re-registering until served), plus publishers with 10 KiB fed but not flushed at the moment of the cut (the loss then surfaces in poll_ready), plus one unrecoverable-answer cell per (kind, max, items), plus silent outages (a UDP relay drops every packet for 2.6 s against a 1.5 s idle time-out, so the connection ends by time-out instead of by a close frame) per (kind, max), plus two clones of one requestor recovering one after the other with a request of the first in flight. Oracle per outage: the re-registration frame equals the original; the fake server counts exactly fails+1 attempts (max when all fail, 1 when unrecoverable) regardless of earlier outages; with fails<max the stream works again (published item reaches the fake server / pushed item is yielded / retried and fresh requests are answered / a request sent to the replier is replied to); with fails==max too-many-retries is reported on the operation that hit the outage or on the next one; an unrecoverable answer is reported immediately. non-trivial = at least two outages or at least one failing attempt",
         "fault sequences are enumerated exhaustively; scheduling inside tokio/quinn is not controlled",
         json!({"step_ms": STEP_MS}),
         replaying,
